@@ -411,8 +411,11 @@ def make_adapters_from_one_specification(
         parameters = search_parameters.copy()
         parameters.update(parse_search_parameters(parameters_spec))
         for name, spec in read_adapters_fasta(path):
+            # The '$' needs to go after the sequence, not after any search parameters
+            sequence, semicolon, record_parameters = spec.partition(";")
+            spec = sequence.rstrip() + anchoring_suffix + semicolon + record_parameters
             yield make_adapter(
-                anchoring_prefix + spec + anchoring_suffix,
+                anchoring_prefix + spec,
                 adapter_type,
                 parameters,
                 name=name,
